@@ -450,6 +450,24 @@ func rbClassifyHang(self string, cand *rbCase, rec *rbRec) {
 		}
 	}
 	if cl == nil {
+		// a class that is known NOT to terminate also takes every input that has one of its frames anywhere on
+		// the stack (a busy loop is stopped at varying leaves); this can only add inputs to a run that fails already
+		for _, k := range rbHangKnown {
+			if k.slow {
+				continue
+			}
+			for _, f := range frames {
+				if k.frames[f] {
+					cl = k
+					break
+				}
+			}
+			if cl != nil {
+				break
+			}
+		}
+	}
+	if cl == nil {
 		cl = &rbHangClass{frames: map[string]bool{}}
 		for _, f := range frames {
 			cl.frames[f] = true
